@@ -235,19 +235,65 @@ func ruleConv(c *Ctx) {
 		ok4 := false
 		if loop != nil {
 			var apps []string
+			var appArgs []ast.Expr
 			for _, st := range loop.Body.List {
 				if as, ok := st.(*ast.AssignStmt); ok && len(as.Rhs) == 1 {
 					if ce, ok := as.Rhs[0].(*ast.CallExpr); ok && c.calleeName(ce) == "builtin.append" {
 						apps = append(apps, sx(ce.Args[1:]))
+						appArgs = append(appArgs, ce.Args[1])
 					}
 				}
 			}
-			ok4 = len(apps) == 2 && apps[0] == "[vl]" && strings.Contains(apps[1], "(KeyValueExpr Key:Name Value:name)") && strings.Contains(apps[1], "(KeyValueExpr Key:Val Value:(SelectorExpr vl Sel:Type))")
+			// vs = append(vs, X); ks = append(ks, types.Field{Name: <name from parseTag>, Val: X.Type}) with the same X
 			tag := c.callsTo(loop.Body, "conv.parseTag")
-			ok4 = ok4 && len(tag) == 1
+			ok4 = len(apps) == 2 && len(tag) == 1
+			if ok4 {
+				xo := c.objOf(appArgs[0])
+				var nameObj types.Object
+				inspectNoLit(loop.Body, func(y ast.Node) bool {
+					if as, ok := y.(*ast.AssignStmt); ok && len(as.Rhs) == 1 && unparen(as.Rhs[0]) == ast.Expr(tag[0]) && len(as.Lhs) >= 1 {
+						nameObj = c.objOf(as.Lhs[0])
+					}
+					return true
+				})
+				cl, isLit := unparen(appArgs[1]).(*ast.CompositeLit)
+				ok4 = xo != nil && nameObj != nil && isLit && len(cl.Elts) == 2
+				if ok4 {
+					var nm, vl ast.Expr
+					for _, e := range cl.Elts {
+						if kv, ok := e.(*ast.KeyValueExpr); ok {
+							switch src(kv.Key) {
+							case "Name":
+								nm = kv.Value
+							case "Val":
+								vl = kv.Value
+							}
+						}
+					}
+					se, isSel := vl.(*ast.SelectorExpr)
+					ok4 = nm != nil && c.objOf(nm) == nameObj && isSel && se.Sel.Name == "Type" && c.objOf(se.X) == xo
+				}
+			}
 		}
-		s := sx(vs.Body)
-		ok4 = ok4 && strings.Contains(s, "(AssignStmt Lhs:[(SelectorExpr obj Sel:V)] Tok:= Rhs:[vs])") && strings.Contains(s, "Fun:(SelectorExpr types Sel:Obj) Args:[ks]")
+		// obj.V = <the value slice>, built with types.Obj(<the field slice>)
+		okInstall := false
+		inspectNoLit(vs.Body, func(y ast.Node) bool {
+			if as, ok := y.(*ast.AssignStmt); ok && len(as.Lhs) == 1 && len(as.Rhs) == 1 {
+				if se, ok := as.Lhs[0].(*ast.SelectorExpr); ok && se.Sel.Name == "V" && strings.HasSuffix(typeStr(c.typeOf(se.X)), "val.ObjVal") {
+					okInstall = typeStr(c.typeOf(as.Rhs[0])) == "[]*val.Val"
+				}
+			}
+			return true
+		})
+		okTy := false
+		for _, call := range c.callsTo(vs.Body, "types.Obj") {
+			if len(call.Args) == 1 && typeStr(c.typeOf(call.Args[0])) == "[]types.Field" {
+				if _, isIdent := unparen(call.Args[0]).(*ast.Ident); isIdent {
+					okTy = true
+				}
+			}
+		}
+		ok4 = ok4 && okInstall && okTy
 		c.R.Check(ok4, "conv.valOfStruct", "CONV-4 values and field types appended in lock-step under the tag name", vs.Pos(), "vs = append(vs, vl); ks = append(ks, Field{name, vl.Type}) in one iteration; obj.V = vs with type Obj(ks)", "struct values and their field types are not built in lock-step (a field's declared type can differ from its value's type)")
 	}
 	if tyOfStruct := tyOf; tyOfStruct != nil {
@@ -366,10 +412,51 @@ func ruleSQL(c *Ctx) {
 	cases := c.tsCases(ts)
 	if cc := cases["parser/ast.CallExpr"]; cc != nil {
 		s := sx(cc.Body)
-		okParen := strings.Contains(s, "(AssignStmt Lhs:[parens] Tok::= Rhs:[(BinaryExpr ok Op:&& Y:(BinaryExpr outerPrec Op:> Y:prec))])")
-		okChild := strings.Contains(s, "Fun:compile Args:[arg env1 prec]")
-		okWrap := strings.Contains(s, "(IfStmt Cond:parens Body:(BlockStmt [(ReturnStmt Results:[(CallExpr Fun:(SelectorExpr val Sel:Str) Args:[(BinaryExpr (BinaryExpr \"(\" Op:+ Y:")
-		okTbl := strings.Contains(s, "(AssignStmt Lhs:[prec ok] Tok::= Rhs:[(IndexExpr logicalFunPrecTbl Index:")
+		blk := &ast.BlockStmt{List: cc.Body}
+		// prec, ok := logicalFunPrecTbl[..]; parens := ok && outerPrec > prec; children compile(arg, env1, prec); if parens { "(" + .. + ")" }
+		var precObj, okObj, parensObj types.Object
+		okTbl := false
+		inspectNoLit(blk, func(y ast.Node) bool {
+			as, isAs := y.(*ast.AssignStmt)
+			if !isAs || len(as.Rhs) != 1 {
+				return true
+			}
+			if ix, isIx := unparen(as.Rhs[0]).(*ast.IndexExpr); isIx && len(as.Lhs) == 2 {
+				if o := c.objOf(ix.X); o != nil && qual(o) == "ext/sql.logicalFunPrecTbl" {
+					precObj, okObj, okTbl = c.objOf(as.Lhs[0]), c.objOf(as.Lhs[1]), true
+				}
+			}
+			return true
+		})
+		okParen := false
+		inspectNoLit(blk, func(y ast.Node) bool {
+			as, isAs := y.(*ast.AssignStmt)
+			if !isAs || len(as.Lhs) != 1 || len(as.Rhs) != 1 || precObj == nil {
+				return true
+			}
+			if be, isB := unparen(as.Rhs[0]).(*ast.BinaryExpr); isB && be.Op == token.LAND && c.objOf(be.X) == okObj {
+				if cmp, isC := unparen(be.Y).(*ast.BinaryExpr); isC && cmp.Op == token.GTR && c.objOf(cmp.Y) == precObj {
+					if po, isParam := c.objOf(cmp.X).(*types.Var); isParam && typeStr(po.Type()) == "parser/oper.BP" && po != precObj {
+						okParen, parensObj = true, c.objOf(as.Lhs[0])
+					}
+				}
+			}
+			return true
+		})
+		okChild := false
+		for _, call := range c.callsTo(blk, "ext/sql.compile") {
+			if len(call.Args) == 3 && c.objOf(call.Args[2]) == precObj && precObj != nil {
+				okChild = true
+			}
+		}
+		okWrap := false
+		ast.Inspect(blk, func(y ast.Node) bool {
+			if is, isIf := y.(*ast.IfStmt); isIf && parensObj != nil && c.objOf(is.Cond) == parensObj {
+				w := sx(is.Body)
+				okWrap = strings.Contains(w, "(BinaryExpr (BinaryExpr \"(\" Op:+ Y:") && strings.Contains(w, "Op:+ Y:\")\")")
+			}
+			return true
+		})
 		c.R.Check(okParen && okChild && okWrap && okTbl, "ext/sql.compile", "SQL-1 parenthesise iff outerPrec > prec; children under prec", cc.Pos(), "structure of the criteria tree is preserved under SQL precedence", "parenthesisation rule changed (must be: parens := ok && outerPrec > prec; children compiled with prec; wrap in ( ) when parens)")
 		okStatic := len(c.callsTo(&ast.BlockStmt{List: cc.Body}, "util.Assert")) >= 1 && strings.Contains(s, "Sel:Resolved")
 		c.R.Check(okStatic, "ext/sql.compile", "SQL-5 only statically resolved calls", cc.Pos(), "dynamic dispatch is refused", "dynamic calls are not refused")
@@ -478,11 +565,11 @@ func ruleSQL(c *Ctx) {
 			cs := c.switchCasesByConst(sw)
 			arm := func(k string) string {
 				if cc := cs[k]; cc != nil {
-					return sx(cc.Body)
+					return c.sxN(fv, cc.Body)
 				}
 				return ""
 			}
-			c.R.Check(arm("types.Str") == "[(ReturnStmt Results:[(CallExpr Fun:escape Args:[(SelectorExpr (CallExpr Fun:(SelectorExpr v Sel:Str)) Sel:V)])])]", "ext/sql.fmtVal", "SQL-2 strings go through escape", sw.Pos(), "return escape(v.Str().V)", "a string value is emitted without escape()")
+			c.R.Check(arm("types.Str") == "[(ReturnStmt Results:[(CallExpr Fun:escape Args:[(SelectorExpr (CallExpr Fun:(SelectorExpr $p0 Sel:Str)) Sel:V)])])]", "ext/sql.fmtVal", "SQL-2 strings go through escape", sw.Pos(), "return escape(v.Str().V)", "a string value is emitted without escape()")
 			c.R.Check(strings.Contains(arm("types.Bool"), "Results:[True]") && strings.Contains(arm("types.Bool"), "Results:[False]"), "ext/sql.fmtVal", "SQL-3 bool -> 1/0", sw.Pos(), "True/False constants", "booleans are not emitted as the True/False constants")
 			tv, fvv := c.Obj("ext/sql", "True"), c.Obj("ext/sql", "False")
 			okTF := false
@@ -500,7 +587,7 @@ func ruleSQL(c *Ctx) {
 		}
 	}
 	if es := c.FuncDecl("ext/sql", "escape"); es != nil {
-		ok := sx(es.Body.List) == "[(ReturnStmt Results:[(CallExpr Fun:(SelectorExpr strconv Sel:Quote) Args:[s])])]"
+		ok := c.sxN(es, es.Body.List) == "[(ReturnStmt Results:[(CallExpr Fun:(SelectorExpr strconv Sel:Quote) Args:[$p0])])]"
 		c.R.Check(ok, "ext/sql.escape", "SQL-2 escape is strconv.Quote and nothing else", es.Pos(), "quotes, backslashes and control characters are escaped: no character of the operand can end the literal", "escape() has a path that does not go through strconv.Quote (a hand-written fast path must escape at least \" and \\)")
 	} else {
 		c.R.Anchor("ext/sql.escape")
@@ -518,17 +605,17 @@ func ruleSQL(c *Ctx) {
 			c.R.Anchor("ext/sql." + name)
 			return
 		}
-		got := sx(lit.Body.List)
+		got := c.sxN(lit, lit.Body.List)
 		c.R.Check(got == want, "ext/sql."+name+"$init", "SQL-4 connective in position", lit.Pos(), "operands and connective in source order", "formatter changed: "+compact(got))
 	}
 	bin := func(conn string) string {
-		return "[(ReturnStmt Results:[(CallExpr Fun:s Args:[\"%s %s %s\" (CallExpr Fun:ds Args:[(IndexExpr args Index:0)]) " + conn + " (CallExpr Fun:ds Args:[(IndexExpr args Index:1)])])])]"
+		return "[(ReturnStmt Results:[(CallExpr Fun:s Args:[\"%s %s %s\" (CallExpr Fun:ds Args:[(IndexExpr $p0 Index:0)]) " + conn + " (CallExpr Fun:ds Args:[(IndexExpr $p0 Index:1)])])])]"
 	}
 	fmtShape("LOGIC_AND_BOOL_BOOL", bin("AND"))
 	fmtShape("LOGIC_OR_BOOL_BOOL", bin("OR"))
-	fmtShape("LOGIC_NOT_BOOL", "[(ReturnStmt Results:[(CallExpr Fun:s Args:[\"%s %s\" NOT (CallExpr Fun:ds Args:[(IndexExpr args Index:0)])])])]")
-	if bi := c.VarInit("ext/sql", "binary"); bi != nil {
-		c.R.Check(strings.Contains(sx(bi), "Args:[\"%s %s %s\" (CallExpr Fun:ds Args:[(IndexExpr args Index:0)]) oper (CallExpr Fun:ds Args:[(IndexExpr args Index:1)])]"), "ext/sql.binary", "SQL-4 comparison operator infix", bi.Pos(), "lhs op rhs", "binary formatter changed")
+	fmtShape("LOGIC_NOT_BOOL", "[(ReturnStmt Results:[(CallExpr Fun:s Args:[\"%s %s\" NOT (CallExpr Fun:ds Args:[(IndexExpr $p0 Index:0)])])])]")
+	if bi, ok := c.VarInit("ext/sql", "binary").(*ast.FuncLit); ok {
+		c.R.Check(strings.Contains(c.sxN(bi, bi.Body), "Args:[\"%s %s %s\" (CallExpr Fun:ds Args:[(IndexExpr $0 Index:0)]) $p0 (CallExpr Fun:ds Args:[(IndexExpr $0 Index:1)])]"), "ext/sql.binary", "SQL-4 comparison operator infix", bi.Pos(), "lhs op rhs", "binary formatter changed")
 	}
 	for _, n := range []string{"AND", "OR", "NOT"} {
 		if cst, ok := c.Obj("ext/sql", n).(*types.Const); ok {
@@ -565,7 +652,7 @@ func ruleDebug(c *Ctx) {
 	}
 	if ts != nil {
 		cases := c.tsCases(ts)
-		wrapped := map[string]string{"parser/ast.IdentExpr": "(CallExpr Fun:(SelectorExpr pos Sel:DBGCol) Args:[(SelectorExpr e Sel:Col)])", "parser/ast.CallExpr": "(SelectorExpr e Sel:DBGCol)", "parser/ast.SubscriptExpr": "(SelectorExpr e Sel:DBGCol)", "parser/ast.MemberExpr": "(SelectorExpr e Sel:DBGCol)"}
+		wrapped := map[string]string{"parser/ast.IdentExpr": "(CallExpr Fun:(SelectorExpr pos Sel:DBGCol) Args:[(SelectorExpr $e Sel:Col)])", "parser/ast.CallExpr": "(SelectorExpr $e Sel:DBGCol)", "parser/ast.SubscriptExpr": "(SelectorExpr $e Sel:DBGCol)", "parser/ast.MemberExpr": "(SelectorExpr $e Sel:DBGCol)"}
 		var names []string
 		for k := range cases {
 			names = append(names, k)
@@ -576,20 +663,20 @@ func ruleDebug(c *Ctx) {
 				continue
 			}
 			cc := cases[k]
-			s := sx(cc.Body)
+			s := c.sxN(wd, cc.Body)
 			if col, ok := wrapped[k]; ok {
-				c.R.Check(s == "[(ReturnStmt Results:[(CallExpr Fun:recordVal Args:["+col+" cl])])]", "closure.wrapForDebug", "DB-1 "+k+" recorded at its own column", cc.Pos(), "recordVal(<column of the term>, cl)", "term kind is not wrapped with its own column")
+				c.R.Check(s == "[(ReturnStmt Results:[(CallExpr Fun:$0 Args:["+col+" $p1])])]", "closure.wrapForDebug", "DB-1 "+k+" recorded at its own column", cc.Pos(), "recordVal(<column of the term>, cl)", "term kind is not wrapped with its own column")
 			} else {
-				c.R.Check(s == "[(ReturnStmt Results:[cl])]", "closure.wrapForDebug", "DB-1 "+k+" not recorded", cc.Pos(), "literals are returned unwrapped", "a literal kind is wrapped / replaced")
+				c.R.Check(s == "[(ReturnStmt Results:[$p1])]", "closure.wrapForDebug", "DB-1 "+k+" not recorded", cc.Pos(), "literals are returned unwrapped", "a literal kind is wrapped / replaced")
 			}
 		}
 	}
 	// DB-2 recorder
 	var rec *ast.FuncLit
 	ast.Inspect(wd.Body, func(x ast.Node) bool {
-		if as, ok := x.(*ast.AssignStmt); ok && len(as.Lhs) == 1 && src(as.Lhs[0]) == "recordVal" {
-			if l, ok := as.Rhs[0].(*ast.FuncLit); ok {
-				rec = l
+		if as, ok := x.(*ast.AssignStmt); ok && len(as.Lhs) == 1 && len(as.Rhs) == 1 && rec == nil {
+			if l, ok := as.Rhs[0].(*ast.FuncLit); ok && l.Type.Results != nil && len(l.Type.Results.List) == 1 && typeStr(c.typeOf(l.Type.Results.List[0].Type)) == "compiler.Closure" {
+				rec = l // the recorder factory: func(col, closure) closure
 			}
 		}
 		return true
@@ -600,27 +687,27 @@ func ruleDebug(c *Ctx) {
 		inner := funcLits(rec.Body)
 		ok := false
 		if len(inner) == 1 {
-			s := sx(inner[0].Body.List)
-			ok = s == "[(AssignStmt Lhs:[v] Tok::= Rhs:[(CallExpr Fun:cl Args:[env])]) (IfStmt Init:(AssignStmt Lhs:[rcd ok] Tok::= Rhs:[(TypeAssertExpr (SelectorExpr env Sel:Dgb) Type:(StarExpr (SelectorExpr debug Sel:Record)))]) Cond:ok Body:(BlockStmt [(ExprStmt (CallExpr Fun:(SelectorExpr rcd Sel:Rec) Args:[v (BinaryExpr (CallExpr Fun:int Args:[col]) Op:+ Y:1)]))])) (ReturnStmt Results:[v])]"
+			s := c.sxN(rec, inner[0].Body.List)
+			ok = s == "[(AssignStmt Lhs:[$0] Tok::= Rhs:[(CallExpr Fun:$p1 Args:[$1])]) (IfStmt Init:(AssignStmt Lhs:[$2 $3] Tok::= Rhs:[(TypeAssertExpr (SelectorExpr $1 Sel:Dgb) Type:(StarExpr (SelectorExpr debug Sel:Record)))]) Cond:$3 Body:(BlockStmt [(ExprStmt (CallExpr Fun:(SelectorExpr $2 Sel:Rec) Args:[$0 (BinaryExpr (CallExpr Fun:int Args:[$p0]) Op:+ Y:1)]))])) (ReturnStmt Results:[$0])]"
 		}
 		c.R.Check(ok, "closure.wrapForDebug", "DB-2 evaluate once, record after, return the same value", rec.Pos(), "v := cl(env); record(v, col+1); return v", "the recorder does not evaluate once / record after evaluation / return the evaluated value")
 	}
 	if cp := c.FuncDecl("closure", "compile"); cp != nil {
-		s := sx(cp.Body.List)
-		ok := strings.Contains(s, "(IfStmt Cond:dbg Body:(BlockStmt [(ReturnStmt Results:[(CallExpr Fun:wrapForDebug Args:[expr closure])])]))") && strings.Contains(s, "Rhs:[(CallExpr Fun:compile0 Args:[expr env1 dbg])]")
+		s := c.sxN(cp, cp.Body.List)
+		ok := strings.Contains(s, "(IfStmt Cond:$p2 Body:(BlockStmt [(ReturnStmt Results:[(CallExpr Fun:wrapForDebug Args:[$p0 $0])])]))") && strings.Contains(s, "Rhs:[(CallExpr Fun:compile0 Args:[$p0 $p1 $p2])]")
 		c.R.Check(ok, "closure.compile", "DB-1 every compiled sub-expression passes through wrapForDebug in debug mode", cp.Pos(), "compile = compile0 then wrap", "debug wrapping is not applied to every sub-expression")
 	}
 	if dc := c.FuncDecl("closure", "DebugCompile"); dc != nil {
 		lits := funcLits(dc.Body)
 		ok := false
 		if len(lits) == 1 {
-			s := sx(lits[0].Body.List)
-			ok = strings.HasPrefix(s, "[(ExprStmt (CallExpr Fun:(SelectorExpr (TypeAssertExpr (SelectorExpr env Sel:Dgb) Type:(StarExpr (SelectorExpr debug Sel:Record))) Sel:Clear))) (ReturnStmt Results:[(CallExpr Fun:closure Args:[env])])]")
+			s := c.sxN(dc, lits[0].Body.List)
+			ok = s == "[(ExprStmt (CallExpr Fun:(SelectorExpr (TypeAssertExpr (SelectorExpr $0 Sel:Dgb) Type:(StarExpr (SelectorExpr debug Sel:Record))) Sel:Clear))) (ReturnStmt Results:[(CallExpr Fun:$1 Args:[$0])])]" && c.hasNode(dc, dc.Body, "(AssignStmt Lhs:[$0] Tok::= Rhs:[(CallExpr Fun:compile Args:[$p0 $p1 true])])", false)
 		}
 		c.R.Check(ok, "closure.DebugCompile", "DB-4 record cleared at the start of each run", dc.Pos(), "Clear(); return closure(env)", "the record is not cleared before each run (values of an earlier run would be reported)")
 	}
 	// DB-3 column flow in the parser
-	for fn, want := range map[string]string{"parseCall": "(CallExpr Fun:(SelectorExpr pos Sel:DBGCol) Args:[(SelectorExpr t Sel:Col)])", "parseDot": "(CallExpr Fun:(SelectorExpr pos Sel:DBGCol) Args:[(SelectorExpr t Sel:Col)])", "parseSubscript": "(CallExpr Fun:(SelectorExpr pos Sel:DBGCol) Args:[(SelectorExpr t Sel:Col)])"} {
+	for fn, want := range map[string]string{"parseCall": "(CallExpr Fun:(SelectorExpr pos Sel:DBGCol) Args:[(SelectorExpr $p3 Sel:Col)])", "parseDot": "(CallExpr Fun:(SelectorExpr pos Sel:DBGCol) Args:[(SelectorExpr $p3 Sel:Col)])", "parseSubscript": "(CallExpr Fun:(SelectorExpr pos Sel:DBGCol) Args:[(SelectorExpr $p3 Sel:Col)])"} {
 		fd := c.FuncDecl("parser", fn)
 		if fd == nil {
 			c.R.Anchor("parser." + fn)
@@ -628,15 +715,15 @@ func ruleDebug(c *Ctx) {
 		}
 		ok := false
 		for _, call := range c.callsTo(fd.Body, "parser/ast.Call", "parser/ast.Member", "parser/ast.Subscript") {
-			if sx(call.Args[2]) == want {
+			if c.sxN(fd, call.Args[2]) == want {
 				ok = true
 			}
 		}
 		c.R.Check(ok, "parser."+fn, "DB-3 node carries the column of its own ( . [ token", fd.Pos(), "pos.DBGCol(t.Col)", "the debug column of the node is not its own token's column")
 	}
 	if ds := c.FuncDecl("trans", "Desugar"); ds != nil {
-		s := sx(ds.Body)
-		n := strings.Count(s, "(AssignStmt Lhs:[dbgCol] Tok::= Rhs:[(CallExpr Fun:(SelectorExpr pos Sel:DBGCol) Args:[(SelectorExpr (SelectorExpr e Sel:IdentExpr) Sel:Col)])])")
+		s := c.sxN(ds, ds.Body)
+		n := strings.Count(s, "Rhs:[(CallExpr Fun:(SelectorExpr pos Sel:DBGCol) Args:[(SelectorExpr (SelectorExpr $e Sel:IdentExpr) Sel:Col)])])")
 		c.R.Check(n == 3, "trans.Desugar", "DB-3 rewritten operators keep the operator token's column", ds.Pos(), "unary, binary and ?: calls carry DBGCol(e.IdentExpr.Col)", fmt.Sprintf("%d of 3 operator rewrites carry the operator's column", n))
 	}
 	// DB-4 Debug
@@ -671,8 +758,8 @@ func ruleDebug(c *Ctx) {
 	}
 	// renderer: first line is the source; rune arithmetic
 	if ra := c.FuncDecl("debug", "render.renderAssertExpr"); ra != nil {
-		s := sx(ra.Body.List)
-		ok := strings.HasPrefix(s, "[(AssignStmt Lhs:[fstLine] Tok::= Rhs:[(UnaryExpr Op:& (CompositeLit Type:(SelectorExpr strings Sel:Builder)))]) (ExprStmt (CallExpr Fun:(SelectorExpr fstLine Sel:WriteString) Args:[(SelectorExpr r Sel:src)])) (AssignStmt Lhs:[(SelectorExpr r Sel:lines)] Tok:= Rhs:[(CallExpr Fun:append Args:[(SelectorExpr r Sel:lines) fstLine])])")
+		s := c.sxN(ra, ra.Body.List)
+		ok := strings.HasPrefix(s, "[(AssignStmt Lhs:[$0] Tok::= Rhs:[(UnaryExpr Op:& (CompositeLit Type:(SelectorExpr strings Sel:Builder)))]) (ExprStmt (CallExpr Fun:(SelectorExpr $0 Sel:WriteString) Args:[(SelectorExpr $r Sel:src)])) (AssignStmt Lhs:[(SelectorExpr $r Sel:lines)] Tok:= Rhs:[(CallExpr Fun:append Args:[(SelectorExpr $r Sel:lines) $0])])")
 		c.R.Check(ok, "debug.render.renderAssertExpr", "DB-4 first rendered line is the source", ra.Pos(), "lines[0] = src", "the source is not the first line of the report")
 	}
 	if rn := c.FuncDecl("debug", "render.render"); rn != nil {
@@ -698,22 +785,23 @@ func ruleDebug(c *Ctx) {
 		})
 	}
 	if ps := c.FuncDecl("debug", "render.placeString"); ps != nil {
-		s := sx(ps.Body.List)
-		ok := strings.Contains(s, "(ForStmt Cond:(BinaryExpr (CallExpr Fun:runeCount Args:[(CallExpr Fun:(SelectorExpr line Sel:String))]) Op:< Y:col)") &&
-			strings.Contains(s, "(AssignStmt Lhs:[start] Tok::= Rhs:[(BinaryExpr col Op:- Y:1)])") &&
-			strings.Contains(s, "(AssignStmt Lhs:[end] Tok::= Rhs:[(BinaryExpr start Op:+ Y:(CallExpr Fun:runeCount Args:[str]))])") && byteLens == 0
+		s := c.sxN(ps, ps.Body.List)
+		ok := strings.HasPrefix(s, "[(ForStmt Cond:(BinaryExpr (CallExpr Fun:runeCount Args:[(CallExpr Fun:(SelectorExpr $p0 Sel:String))]) Op:< Y:$p2)") &&
+			strings.Contains(s, "(AssignStmt Lhs:[$0] Tok::= Rhs:[(BinaryExpr $p2 Op:- Y:1)])") &&
+			strings.Contains(s, "(AssignStmt Lhs:[$1] Tok::= Rhs:[(BinaryExpr $0 Op:+ Y:(CallExpr Fun:runeCount Args:[$p1]))])") &&
+			strings.Contains(s, "(ExprStmt (CallExpr Fun:replace Args:[$p0 $0 $1 $p1]))") && byteLens == 0
 		c.R.Check(ok, "debug.render.placeString", "DB-5 pad to the column, overwrite [col-1, col-1+runes(str))", ps.Pos(), "rune arithmetic; the line is padded before it is sliced", "placeString no longer pads to the column and overwrites exactly the runes of the value")
 	} else {
 		c.R.Anchor("debug.render.placeString")
 	}
 	if rp := c.FuncDecl("debug", "replace"); rp != nil {
-		s := sx(rp.Body.List)
-		ok := strings.HasPrefix(s, "[(AssignStmt Lhs:[runes] Tok::= Rhs:[(CallExpr Fun:(ArrayType Elt:rune) Args:[(CallExpr Fun:(SelectorExpr buf Sel:String))])])") && strings.Contains(s, "(IfStmt Cond:(BinaryExpr end Op:> Y:(CallExpr Fun:len Args:[runes]))")
+		s := c.sxN(rp, rp.Body.List)
+		ok := strings.HasPrefix(s, "[(AssignStmt Lhs:[$0] Tok::= Rhs:[(CallExpr Fun:(ArrayType Elt:rune) Args:[(CallExpr Fun:(SelectorExpr $p0 Sel:String))])])") && strings.Contains(s, "(IfStmt Cond:(BinaryExpr $p2 Op:> Y:(CallExpr Fun:len Args:[$0]))")
 		c.R.Check(ok, "debug.replace", "DB-5 replaces a rune range, clamped to the line", rp.Pos(), "[]rune slicing with the end clamped", "replace no longer works on runes with a clamped end")
 	}
 	if rc := c.FuncDecl("debug", "Record.Rec"); rc != nil {
-		s := sx(rc.Body)
-		ok := strings.Contains(s, "Fun:append Args:[(SelectorExpr r Sel:vs) (CompositeLit Type:Val Elts:[v col])]")
+		s := c.sxN(rc, rc.Body)
+		ok := strings.Contains(s, "Fun:append Args:[(SelectorExpr $r Sel:vs) (CompositeLit Type:Val Elts:[$p0 $p1])]")
 		c.R.Check(ok, "debug.Record.Rec", "DB-2 every recorded value is kept, in evaluation order", rc.Pos(), "appended to the record", "a recorded value is dropped or reordered")
 	}
 }
